@@ -60,22 +60,36 @@ def regenerate():
     """Re-translate coq/gen/*.v from /repo's working tree (DESIGN 2.5)."""
     sys.path.insert(0, os.path.join(VERIF, 'tools'))
     notes = []
-    try:
-        import gen_consts, gen_leaf
-        for mod in (gen_consts, gen_leaf):
+    import importlib
+    for name in sorted(os.path.basename(p)[:-3] for p in glob.glob(os.path.join(VERIF, 'tools', 'gen_*.py'))):
+        try:
+            mod = importlib.import_module(name)
             text, note = mod.generate(REPO)
             changed = write_if_changed(os.path.join(COQ, 'gen', mod.TARGET), text)
             notes.append('%s: %s%s' % (mod.TARGET, note, ' (changed)' if changed else ''))
-    except Exception as e:  # fail closed: the tie is broken, reported by the caller
-        notes.append('TRANSLATOR-FAILED: %r' % (e,))
+        except Exception as e:  # fail closed for the files that import this module: it is emptied
+            target = getattr(sys.modules.get(name), 'TARGET', name + '.v')
+            write_if_changed(os.path.join(COQ, 'gen', target),
+                             '(* translator %s failed on the current source: %s *)\n' % (name, str(e).replace('*)', '* )')))
+            notes.append('TRANSLATOR-FAILED %s: %r' % (target, e))
     return notes
 
 
 # ---------------------------------------------------------------- Coq build
+COQ_DIRS = ['Go', 'gen', 'Model', 'Proofs', 'Obs', 'Drv', 'Props']
+COQ_ARGS = ('-Q . F2G\n-arg -w -arg -notation-overridden,-inexact-float,-large-nat,-deprecated-hint-without-locality,'
+            '-deprecated-syntactic-definition,-ambiguous-paths,-deprecated-instance-without-locality\n')
+
+
 def coq_makefile():
-    mk = os.path.join(COQ, 'Makefile.coq')
+    """_CoqProject lists every .v file under coq/{Go,gen,Model,Proofs,Obs,Drv,Props} (coqdep orders them)."""
+    files = []
+    for d in COQ_DIRS:
+        files += sorted(os.path.relpath(f, COQ) for f in glob.glob(os.path.join(COQ, d, '**', '*.v'), recursive=True))
     proj = os.path.join(COQ, '_CoqProject')
-    if not os.path.exists(mk) or os.path.getmtime(mk) < os.path.getmtime(proj):
+    changed = write_if_changed(proj, COQ_ARGS + '\n'.join(files) + '\n')
+    mk = os.path.join(COQ, 'Makefile.coq')
+    if changed or not os.path.exists(mk) or os.path.getmtime(mk) < os.path.getmtime(proj):
         sh(['coq_makefile', '-f', '_CoqProject', '-o', 'Makefile.coq'], cwd=COQ, check=True)
 
 
@@ -146,7 +160,25 @@ REWRITES = [
 ]
 
 
-def build_harness(run_dir, race=False):
+def all_rewrites():
+    """REWRITES plus the rewrites declared by lib/props/*.py (SPEC['rewrites'] = [(file, [(regex, repl)], None)])."""
+    res = {}
+    for rel, subs, _ in REWRITES:
+        res.setdefault(rel, [])
+        res[rel] += [x for x in subs if x not in res[rel]]
+    try:
+        sys.path.insert(0, os.path.join(VERIF, 'lib'))
+        import registry
+        for spec in registry.PROPS.values():
+            for rel, subs, _ in spec.get('rewrites', []):
+                res.setdefault(rel, [])
+                res[rel] += [tuple(x) for x in subs if tuple(x) not in res[rel]]
+    except Exception as e:
+        log('registry rewrites not loaded: %r' % (e,))
+    return [(rel, subs, None) for rel, subs in res.items()]
+
+
+def build_harness(run_dir, race=False, tags='verif'):
     """go build -overlay of cmd/verifharness against /repo's working tree."""
     t0 = time.time()
     notes = []
@@ -159,7 +191,7 @@ def build_harness(run_dir, race=False):
             ov[os.path.join(REPO, rel)] = src
     rw_dir = os.path.join(run_dir, 'rw')
     os.makedirs(rw_dir, exist_ok=True)
-    for rel, subs, _ in REWRITES:
+    for rel, subs, _ in all_rewrites():
         src = os.path.join(REPO, rel)
         try:
             txt = open(src).read()
@@ -184,7 +216,7 @@ def build_harness(run_dir, race=False):
     open(modfile, 'w').write(mod)
     shutil.copy(os.path.join(REPO, 'go.sum'), os.path.join(run_dir, 'go.verif.sum'))
     binpath = os.path.join(run_dir, 'harness-race' if race else 'harness')
-    cmd = ['go', 'build', '-tags', 'verif', '-modfile=' + modfile, '-overlay=' + os.path.join(run_dir, 'overlay.json'),
+    cmd = ['go', 'build', '-tags', tags, '-modfile=' + modfile, '-overlay=' + os.path.join(run_dir, 'overlay.json'),
            '-o', binpath]
     env = dict(GOENV)
     if race:
